@@ -416,8 +416,12 @@ func (s *senderWorld) startNode() *Violation {
 		cfg.Mode = "AggchainProof"
 		s.pv.epoch = s.w.Epoch
 		pc := aggchainproofclient.NewAggchainProofClientWithService(&aggkitgrpc.ClientConfig{RequestTimeout: cfgtypes.NewDuration(time.Hour)}, s.pv)
+		optSigner, oerr := newOptimisticSigner(ctx, logger)
+		if oerr != nil {
+			return &Violation{Oracle: "harness", Detail: "optimistic signer: " + oerr.Error()}
+		}
 		node, err = aggsender.NewVerifWithFlow(ctx, logger, cfg, client, s.l2r, s.ep, func(storage aggsenderdb.AggSenderStorage) (aggsendertypes.AggsenderFlow, error) {
-			return flows.VerifNewAggchainProverFlow(ctx, cfg, logger, storage, l1c, s.l1s.F, s.l2r, rollupDataStub{}, pc, gerReaderStub{s}, uint64(s.cfg["start_l2"]), optModeStub{s}, optSignerStub{})
+			return flows.VerifNewAggchainProverFlow(ctx, cfg, logger, storage, l1c, s.l1s.F, s.l2r, rollupDataStub{}, pc, gerReaderStub{s}, uint64(s.cfg["start_l2"]), optModeStub{s}, optSigner)
 		})
 	} else {
 		node, err = aggsender.New(ctx, logger, cfg, client, s.l1s.F, s.l2r, s.ep, l1c, nil, rollupDataStub{})
